@@ -308,7 +308,8 @@ pub fn run_shard(prop: &'static dyn Property, tier: Tier, seed: u64, cases: u32,
         let mut st = stats.borrow_mut();
         st.evaluations += 1;
         st.sub_evaluations += ctx.sub_evals.max(1);
-        for l in &ctx.labels { *st.labels.entry(l.clone()).or_insert(0) += 1; }
+        // (labels of discarded cases do not count: a required label must be reached by a case that was actually decided)
+        if !matches!(out, Outcome::Discard(_)) { for l in &ctx.labels { *st.labels.entry(l.clone()).or_insert(0) += 1; } }
         for k in &ctx.known_hits { *st.known_hits.entry(k.clone()).or_insert(0) += 1; }
         match out {
             Outcome::Pass => {
